@@ -48,7 +48,7 @@ func NewHmmProbabilityVector(v Vector, isLog bool) (HmmProbabilityVector, error)
   }
   r := HmmProbabilityVector{pi, t1, t2}
   if err := r.Normalize(); err != nil {
-    return HmmProbabilityVector{}, nil
+    return HmmProbabilityVector{}, err
   }
   return r, nil
 }
